@@ -108,8 +108,8 @@ Thorough(x) ==
     \/ Dev(x) <= 1
     \/ /\ Dev(x) = 2
        /\ (x.jit_compile => (~x.no_id_cached /\ Deviates(x, 1) /\ RepPairing(x)))
-       /\ ((x.lazy_call /\ Deviates(x, 1)) => RepPairing(x))
-       /\ ((x.nll # "default" /\ Deviates(x, 1)) => RepPairing(x))
+       /\ ((x.lazy_call /\ Deviates(x, 1)) => x.amp_model \in {"cached_amp", "p4_directly"})
+       /\ ((x.nll # "default" /\ Deviates(x, 1)) => x.amp_model = "cached_amp")
        /\ ((x.lazy_call /\ x.use_tf_function) => x.no_id_cached)
        /\ ~(x.lazy_call /\ x.float_shape)
        /\ (x.nll \in {"cfit", "cfit_cached"} => x.float_shape)
